@@ -431,7 +431,7 @@ fn framing_unit(maxlen: usize) -> Unit {
     let symbols: [&str; 8] = ["a", "\n", "\\", "n", "é", "💡", " ", ":"];
     let all = texts(&symbols, maxlen);
     let nt = all.len();
-    let dom = format!("every message text of up to {} symbols over {{a, newline, backslash, n, é, 💡, space, colon}} = {} texts, sent in order through the real Socket::connect send worker over loopback TCP; the client splits on newline, unescapes and must recover the exact sequence. Incoming: line sequences written as one write / one write per line / one write per byte", maxlen, nt);
+    let dom = format!("every message text of up to {} symbols over {{a, newline, backslash, n, é, 💡, space, colon}} = {} texts, sent in order through the real Socket::connect send worker over loopback TCP; the client splits on newline, unescapes and must recover the exact sequence. Incoming: line sequences written as one write / one write per line / one write per byte; then four lines each written in three pieces at every pair of cut positions, in four pieces at every window of three adjacent cuts, and one byte per piece (TCP_NODELAY, a pause after every piece)", maxlen, nt);
     Unit::new("framing-through-real-workers", 1, &dom, move |ctx, _| {
         let (sock, mut stream) = match connect_pair(0) {
             Some(x) => x,
@@ -521,6 +521,63 @@ fn framing_unit(maxlen: usize) -> Unit {
             let want: Vec<String> = lines_in.iter().map(|s| s.to_string()).collect();
             if got != want {
                 ctx.custom_violation("c18", format!("incoming lines (chunking mode {}): sent {:?}, the emulator's receive side delivered {:?}", mode, want, got), json!({"framing": "incoming", "mode": mode}), json!(want), json!(got));
+            }
+        }
+        // ---- incoming: one line in three pieces at every pair of cut positions, and one byte per segment
+        // (TCP_NODELAY, a pause after every piece so that each piece is a read of its own on the emulator's side)
+        let _ = stream.set_nodelay(true);
+        let piece_lines: [&str; 4] = ["ioport:1:f0", "u8:430300:11", "cmd:pause", "é:💡"];
+        for (li, l) in piece_lines.iter().enumerate() {
+            let wire = format!("{}\n", l).into_bytes();
+            let n = wire.len();
+            let mut cuts: Vec<Vec<usize>> = Vec::new();
+            for i in 1..n {
+                for j in (i + 1)..n {
+                    cuts.push(vec![i, j]);
+                }
+            }
+            // every byte a piece of its own
+            cuts.push((1..n).collect());
+            // four pieces: a sliding window of three cuts
+            for i in 1..n.saturating_sub(2) {
+                cuts.push(vec![i, i + 1, i + 2]);
+            }
+            for cut in cuts.iter() {
+                let mut prev = 0usize;
+                for &c in cut.iter().chain(std::iter::once(&n)) {
+                    let _ = stream.write_all(&wire[prev..c]);
+                    let _ = stream.flush();
+                    prev = c;
+                    if c < n {
+                        std::thread::sleep(std::time::Duration::from_micros(if cut.len() > 3 { 400 } else { 1500 }));
+                    }
+                }
+                let mut got: Vec<String> = Vec::new();
+                let t0 = std::time::Instant::now();
+                while got.is_empty() && t0.elapsed().as_secs() < 5 {
+                    match sock.pop_messages() {
+                        Ok(v) => got.extend(v),
+                        Err(_) => break,
+                    }
+                    if got.is_empty() {
+                        std::thread::sleep(std::time::Duration::from_micros(200));
+                    }
+                }
+                ctx.st.cases += 1;
+                ctx.st.nontrivial += 1;
+                if got != vec![l.to_string()] {
+                    ctx.custom_violation(
+                        "c18",
+                        format!("incoming line {:?} written in {} pieces (cuts after bytes {:?}, a pause after each): the emulator's receive side delivered {:?}", l, cut.len() + 1, cut, got),
+                        json!({"framing": "incoming-pieces", "line": li, "cuts": cut}),
+                        json!([l]),
+                        json!(got),
+                    );
+                    if ctx.stop {
+                        return;
+                    }
+                    break;
+                }
             }
         }
         ctx.sample(json!({"text": "a\n\\n", "wire": "a\\n\\\\n\n"}));
@@ -661,6 +718,19 @@ fn backlog_unit() -> Unit {
         }
         drop(sock);
     })
+}
+
+/// Pin-change lines on their way from the control socket to `Bus::write_port` (borrowed by C16: the external
+/// level a port shows is the one the last well-formed `ioport:` line named, whatever else shared its batch).
+pub const PIN_ALPHABET: [&str; 9] = ["cmd:pause", "cmd:start", "ioport:1:f0", "ioport:1:f", "ioport:5:3c", "ioport:b:a5", "u8:fee000:ff", "cmd:bogus", ""];
+
+pub fn c16_borrowed_units(thorough: bool) -> Vec<Unit> {
+    let mut u = vec![seq_unit("pin-lines/len2", &PIN_ALPHABET, 2), seq_unit("pin-lines/len3", &PIN_ALPHABET, 3)];
+    if thorough {
+        u.push(seq_unit("pin-lines/len4", &PIN_ALPHABET, 4));
+    }
+    u.push(framing_unit(2));
+    u
 }
 
 pub fn c18(tier: Tier, _seed: u64) -> Prop {
